@@ -24,6 +24,10 @@
   succeeded), `popped` (values in the order their `low` CAS succeeded), `written i` /
   `cleared i` (slot write / slot clear of claim index `i` happened), `arg t` (argument of
   thread `t`'s current trypush).  The proofs are in `Proof/Ring.lean`.
+
+  Index wrap-around: modulo the CAPACITY here (`high`, `low` unbounded, slot = index mod 2^k);
+  modulo 2^64 — the real width of `high` / `low` — in `Props/C16Wrap.lean` (refinement of
+  this model by the 64-bit machine `Model/RingW.lean`, every clause restated, finding F-C16).
 -/
 import LibfiberVerif.Proof.Ring
 
